@@ -12,11 +12,6 @@ def final : Except (Outcome × Cfg) Cfg → Cfg
   | .ok c => c
   | .error (_, c) => c
 
-/-- the step did not go on normally: it ended the run, or an exception was raised -/
-def isOk : Except (Outcome × Cfg) Cfg → Bool
-  | .ok _ => true
-  | .error _ => false
-
 /-! ### hypotheses on the application -/
 
 /-- an application callback (a scripted handler or an `ExceptionSignal` handler) -/
@@ -30,6 +25,8 @@ register the library's private `InputThreadManager._input_received_handler` /
 `InputHandler._input_received_handler` methods as handlers of its own. -/
 def UserHandlers (c0 : Cfg) : Prop :=
   ∀ h ∈ c0.L.handlers.drop 3, h.2.1.isApp = true
+
+instance (c0 : Cfg) : Decidable (UserHandlers c0) := by unfold UserHandlers; infer_instance
 
 /-- the library's two internal input signal classes -/
 def Cls.isInput : Cls → Bool
@@ -48,8 +45,15 @@ def Prog.NoForge (P : Prog) : Prop :=
   (∀ scr cb n, ∀ a ∈ (P.screenScript scr cb n).acts, a.forges = false) ∧
   (∀ hid n, ∀ a ∈ P.handlerScript hid n, a.forges = false)
 
+/-- the instruction is a user action that forges an input signal -/
+def Instr.forges : Instr → Bool
+  | .act a => a.forges
+  | _ => false
+
 /-- no start-up action forges an input signal -/
-def Cfg.NoForge (c : Cfg) : Prop := ∀ a, Instr.act a ∈ c.code → a.forges = false
+def Cfg.NoForge (c : Cfg) : Prop := ∀ ins ∈ c.code, ins.forges = false
+
+instance (c : Cfg) : Decidable c.NoForge := by unfold Cfg.NoForge; infer_instance
 
 /-- The application never enqueues an `InputReceivedSignal` / `InputReadySignal` of its own making
 (neither in the start-up actions nor in any handler or screen callback): these two classes are only
